@@ -359,7 +359,9 @@ impl GmWorld {
             None => {
                 let zero = (kv.op.ends_with("vf") || kv.op.ends_with("vt")) && kv.us("count") == 0;
                 if zero {
+                    // a count of 0 is a guest-chosen number like any other: both properties are broken
                     rec.fail("C18", &format!("{}/zero-count/panic", op), line);
+                    rec.fail("C07", &format!("{}/zero-count/panic", op), line);
                 } else {
                     rec.fail("C07", &format!("{}/panic", op), line);
                 }
@@ -1162,6 +1164,25 @@ pub fn run(rec: &mut Rec, rng: &mut Rng, n_ops: usize, mode: &str) {
             done += 1;
             continue;
         }
+        if xen {
+            // zero-length sweep (C18, C07): accesses that name no bytes at the window boundaries of every region
+            // (region offset 0 and page-aligned offsets are the cases a page-granular mapping gets wrong)
+            for (i, &(_, l)) in lay.iter().enumerate() {
+                for off in [0u64, 4096, 1] {
+                    if off >= l as u64 { continue; }
+                    for _ in 0..2 {
+                        let mut lines: Vec<String> = vec![];
+                        let last = crate::streams::gen_stream_ops(g.rec, rng, &mut |_rec, l| lines.push(l), "gr", &format!("m=0 i={} a={}", i, off), 0);
+                        for x in lines {
+                            g.go(x, true);
+                        }
+                        g.go(last, true);
+                        done += 1;
+                    }
+                    g.go(format!("gr.slice m=0 i={} a={} cnt=0", i, off), true);
+                }
+            }
+        }
         let marks = marks_of(&lay);
         let mut live: Vec<u64> = vec![0];
         let mut next_m = 1u64;
@@ -1254,7 +1275,10 @@ pub fn run(rec: &mut Rec, rng: &mut Rng, n_ops: usize, mode: &str) {
                 let i = rng.below(nreg as u64);
                 let rid = g.w.layouts[&mi][i as usize];
                 let rl = g.w.info[&rid].len as u64;
-                let ra = if rng.chance(3, 4) { rng.below(rl + 2) } else { rng.boundary(&[rl, rl - 1]) };
+                let ra = if xen && rng.chance(1, 3) {
+                    // Xen windows are page granular: page-aligned offsets (0 included) are the boundary cases
+                    4096 * rng.below(rl / 4096 + 1) + *rng.pick(&[0u64, 0, 0, 1, 4095])
+                } else if rng.chance(3, 4) { rng.below(rl + 2) } else { rng.boundary(&[rl, rl - 1]) };
                 let data = rng.bytes(len);
                 match rng.below(14) {
                     0 | 1 => format!("gr.write m={} i={} a={} data={}", mi, i, ra, hex(&data)),
